@@ -14,6 +14,8 @@
      UnknownTypePanics          a record type > 11 from the responder: the process dies instead of failing the request
      NonUtf8Panics              STDOUT that is not UTF-8: the process dies
      BadStatusPanics            `Status:` without a number: the process dies
+     UnknownStatusBecomes200    a numeric `Status:` that humphrey::http::StatusCode does not list is ignored (answer 200)
+     RequestUriDoubleSlash      REQUEST_URI / SCRIPT_NAME / PHP_SELF are "/" + uri although uri already starts with "/"
      ConnErrorExitsServer       EOF / error on the FastCGI connection: the whole server exits (code 0)
    Plausible bugs for sensitivity: PadCountedAsContent, ShortLenFormAt128. *)
 EXTENDS Naturals, Sequences, FiniteSets
